@@ -634,6 +634,10 @@ PRUNE_SPEC = [
     (("O", 0, None, 2, 0), True, "o  (furan type)"),
     (("S", 0, None, 2, 0), True, "s  (thiophene type)"),
     (("P", 0, None, 2, 0), False, "p  (phosphinine type)"),
+    # satisfied by charge or substituents at the *upper* valence of the element (the look-up must cover every listed valence)
+    (("S", 1, 0, 2, 1), True, "[s+]R  (S-alkylthiophenium: three sigma bonds, lone pair donated)"),
+    (("O", 1, 0, 2, 1), True, "[o+]R  (O-alkylfuranium type)"),
+    (("S", 0, None, 2, 2), True, "s(=O)  sulfur with an exocyclic double bond (thiophene S-oxide type)"),
     # half-integral bond sums (an odd number of aromatic bonds): the electron count must not lose the half bond
     (("C", 0, 1, 1, 1), False, "[cH]-  with one aromatic and one explicit single ring bond"),
     (("N", 0, 0, 3, 0), True, "[n]3  ring-fusion nitrogen (three aromatic bonds)"),
@@ -834,40 +838,48 @@ def check_writeback_phases(ctx, rep, RULE="K9"):
         return
     (wq, wpar), = writers
 
-    def events_of_call(f, call, depth=0):
-        s_ = {id(x.node): x for x in ctx.cg.sites(f)}.get(id(call))
-        if s_ is None or len(s_.callees) != 1:
-            return []
-        g = s_.callees[0]
-        if g.qual == wq:
-            return [v for par, v in const_orders(f, call, g) if par == wpar]
-        if g.cls is cls and g is not K and depth < 2:
-            # a helper of the class: every constant order it writes, in source order (its own control flow is not replayed)
-            out = []
-            for c in own_nodes(g.node):
-                if isinstance(c, ast.Call):
-                    out += events_of_call(g, c, depth + 1)
-            return out
-        return []
-
     bad = {}
     n_events = [0]
 
-    class Phases(Forward):
-        def join(self, a, b):
-            return a | b
+    def run_phases(f, state, depth):
+        """may-dataflow over f's structured control flow; returns the union of the states at f's exits"""
+        outs = []
+        fsites = {id(x.node): x for x in ctx.cg.sites(f)}
 
-        def simple(self, st, state):
-            for c in ast.walk(st.for_node.iter if hasattr(st, "for_node") else st):
-                if isinstance(c, ast.Call):
-                    for v in events_of_call(K, c):
-                        n_events[0] += 1
-                        if v == 2:
-                            state = state | {"double"}
-                        elif v == 1 and "double" in state:
-                            bad[id(c)] = c
-            return state
-    Phases(K.node).run(frozenset())
+        class Phases(Forward):
+            def join(self, a, b):
+                return a | b
+
+            def exit(self, kind, node, state):
+                if kind in ("return", "end"):
+                    outs.append(state)
+
+            def simple(self, st, state):
+                for c in ast.walk(st.for_node.iter if hasattr(st, "for_node") else st):
+                    if not isinstance(c, ast.Call):
+                        continue
+                    s_ = fsites.get(id(c))
+                    if s_ is None or len(s_.callees) != 1:
+                        continue
+                    g = s_.callees[0]
+                    if g.qual == wq:
+                        for par, v in const_orders(f, c, g):
+                            if par != wpar:
+                                continue
+                            n_events[0] += 1
+                            if v == 2:
+                                state = state | {"double"}
+                            elif v == 1 and "double" in state:
+                                bad[id(c)] = c
+                    elif g.cls is cls and g is not K and g is not f and depth < 2:
+                        state = run_phases(g, state, depth + 1)      # a helper of the class: its own control flow is replayed
+                return state
+        Phases(f.node).run(state)
+        out = frozenset()
+        for o in outs:
+            out = out | o
+        return out if outs else state
+    run_phases(K, frozenset(), 0)
     if not n_events[0]:
         rep.note("K9: kekulize() writes no constant bond orders: write-back phases not decided")
         return
